@@ -504,6 +504,44 @@ def run(ctx):
         for (kind, desc, nm), vs in sorted(agg.items()):
             ctx.fail('C19.R5', '%s|%s %s' % (cname, kind, nm), site, 'a request the client can emit is not decodable by the server: %s [versions %s]' % (desc, ','.join(x[5:] for x in vs)))
     ctx.count('request_structures', n_req, 25)
+    # ---------------- R8 explicitly tagged values the clients build carry the tag the request reader expects for that field
+    ctx.rule('C19.R8', 'where a client builds a tagged value for a request field (primitives.X(value, enums.Tags.T), tag=enums.Tags.T, create_attribute_value_by_enum(enums.Tags.T, ...)) and binds it to a local or keyword named like a request payload field, T is the tag under which the request readers decode that field: otherwise the server cannot decode the request')
+    field_tags = {}
+    for ref, rf, wf in sch.codec_classes():
+        if not ref[1].endswith('RequestPayload'):
+            continue
+        for e in sch.extract(ref, rf, 'read').events:
+            if e.get('tag') and not str(e['tag']).startswith('?'):
+                field_tags.setdefault(e['ident'], set()).add(e['tag'])
+    n_tagged = 0
+    for rel in (PIE, PROXY):
+        for c in ast.walk(src.tree(rel)):
+            if not isinstance(c, ast.Call):
+                continue
+            cn = call_name(c) or ''
+            tag = None
+            if cn.split('.')[0] == 'primitives' or cn.endswith('create_attribute_value_by_enum'):
+                cands = list(c.args) + [k.value for k in c.keywords if k.arg == 'tag']
+                for a in cands:
+                    em = enum_member(a, 'Tags')
+                    if em:
+                        tag = em[1]
+            if tag is None:
+                continue
+            par = getattr(c, '_parent', None)
+            names = []
+            if isinstance(par, ast.Assign):
+                names = [t.id for t in par.targets if isinstance(t, ast.Name)]
+            elif isinstance(par, ast.keyword) and par.arg:
+                names = [par.arg]
+            for nm in names:
+                want = field_tags.get(nm)
+                if not want:
+                    continue
+                n_tagged += 1
+                ctx.check(tag in want, 'C19.R8', '%s|%s tagged %s' % (rel, nm, tag), '%s:%s' % (rel, c.lineno), '%s is built with tag %s, which the request readers expect' % (nm, tag),
+                          'the value bound to %s is built with tag %s, but the request readers decode that field under %s: the server leaves the item unread and refuses the request as invalid' % (nm, tag, sorted(want)))
+    ctx.count('tagged_request_values_in_clients', n_tagged, 1)
     ctx.not_decided += ['that the data returned on success equals the payload values (field-by-field naming of result objects is only checked for status/reason/message)']
     ctx.assumptions += ['socket.recv(n) returns at most n bytes and b"" at end of stream']
     check_optional_batch_item_fields(ctx, src.tree(PROXY))
